@@ -26,6 +26,7 @@ def ex_slsp(repo):
         s.item(r'^pub\(crate\) fn check_continuous_headers'),
         s.item(r'^pub\(crate\) fn verify_mmr_proof'),
         p.item(r'^impl HeaderUtils for HeaderView'),
+        p.item(r'^pub\(crate\) trait VerifiableHeaderPatch'),
         p.item(r'^impl VerifiableHeaderPatch for VerifiableHeader'),
     ]
 
